@@ -3,7 +3,7 @@ import pk
 from common import jhash, first_diff
 from pkgrun import *
 
-PROF = profile(p_cell_nopar=0.1, p_sdt_cell=0.15, p_grid_gap=0.25, p_no_r_ns=0.15, p_numbering=0.7, p_comments=0.6, p_form=0.12,
+PROF = profile(p_strict=0.12, p_cell_nopar=0.1, p_sdt_cell=0.15, p_grid_gap=0.25, p_no_r_ns=0.15, p_numbering=0.7, p_comments=0.6, p_form=0.12,
                p_table=0.25, p_vmerge=0.4, p_span=0.35)
 RULE = ('packages from a grammar of schema-valid constructs with every optional part / attribute independently present or absent and '
         'enumerated values over their value space (on/off spellings, empty drop-downs, grid gaps, dangling ids, missing r namespace, '
